@@ -229,6 +229,29 @@ def setState : List Name → List Slot → TSt → TSt
 /-- First `nouts` entries from the selected branch, the rest from the initial snapshot. -/
 def selectOuts (nouts : Nat) (sel s0 : List Slot) : List Slot := sel.take nouts ++ s0.drop nouts
 
+/-! ### Finding class `state_var_unbound_local_of_enclosing_body`
+A static predicate on generated code: some functionalised statement nested in a generated body function has a
+state variable `x` that is a *local* of that body function (assigned directly in it, not declared `nonlocal`)
+and is not yet assigned when the statement starts — because the direct assignment that makes it local comes
+*later* in the body.  `get_state()` of the nested statement then reads an unbound local and raises.  Natively
+nothing happens (the getter is never called).  The pinned `_get_block_vars` emits no `Undefined` placeholder in
+this situation when the variable is (may-)defined before the *outer* statement. -/
+mutual
+def riskS (L B : List Name) : TStmt → Bool
+  | .ifF _ b e decl _ => decl.any (fun x => L.contains x && !B.contains x) ||
+      riskB (localsOf b decl) [] b || riskB (localsOf e decl) [] e
+  | .whileF _ b decl => decl.any (fun x => L.contains x && !B.contains x) || riskB (localsOf b decl) [] b
+  | .forF x _ _ b decl => decl.any (fun y => L.contains y && !B.contains y) || riskB (localsFor x b decl) [x] b
+  | _ => false
+def riskB (L B : List Name) : TBlock → Bool
+  | [] => false
+  | s :: r => riskS L B s || riskB L (B ++ directS s) r
+end
+
+/-- The class predicate on a whole generated function body (the function's own frame is not at risk: every
+state variable possibly unbound there gets its `Undefined` placeholder). -/
+def stateUnboundRisk (t : TBlock) : Bool := riskB [] [] t
+
 mutual
 def execF (X : Ext) : Nat → TStmt → TSt → Option (Out × TSt)
   | 0, _, _ => none
